@@ -3,7 +3,7 @@
 passing gtest cases + ctest entries with /root/.vp/BASELINE.json stable_pass."""
 import glob, json, os, subprocess, sys, tempfile
 import xml.etree.ElementTree as ET
-B = "/repo/_build"
+B = sys.argv[1] if len(sys.argv) > 1 else "/repo/_build"
 r = subprocess.run(["cmake", "--build", B, "-j16"], capture_output=True, text=True)
 if r.returncode != 0:
     print(r.stdout[-3000:], r.stderr[-3000:]); sys.exit(2)
